@@ -5,6 +5,7 @@ package main
 import (
 	"encoding/json"
 	"fmt"
+	"sort"
 	"time"
 
 	"github.com/semafind/semadb/models"
@@ -56,7 +57,47 @@ func symbols(metric string) *sl.Symbols {
 		thirty.Docs = append(thirty.Docs, sl.Doc{prop: v, "cat": fmt.Sprintf("c%d", i%2)})
 	}
 	syms.Add(thirty)
+	syms.Add(twoHundred(dim))
 	return syms
+}
+
+// twoHundred: 225 lattice points (15 x 15) in an order that separates node-id
+// order from geometry.  Ranked by distance from the origin: the 25 farthest come
+// first (ids 1001..1025, the lowest node ids), then everything else by rank.
+// ringIds are 35 points of ranks 90..124: outside the 75 nearest to the origin.
+func twoHundred(dim int) sl.Op {
+	op := sl.Op{Name: "ins225(far points first)", Kind: "ins"}
+	order, _ := bigOrder()
+	lat := sl.Lattice(225, dim)
+	for k, li := range order {
+		op.Ids = append(op.Ids, 1001+k)
+		op.Docs = append(op.Docs, sl.Doc{prop: lat[li], "cat": fmt.Sprintf("c%d", li%2)})
+	}
+	return op
+}
+
+// bigOrder returns the lattice indices in batch order and the point ids of the ring.
+func bigOrder() (order []int, ring []int) {
+	type pr struct {
+		li int
+		d  int
+	}
+	var ps []pr
+	for i := 0; i < 225; i++ {
+		x, y := i%15, i/15
+		ps = append(ps, pr{i, x*x + y*y})
+	}
+	sort.SliceStable(ps, func(a, b int) bool { return ps[a].d < ps[b].d })
+	for k := 200; k < 225; k++ { // the 25 farthest first
+		order = append(order, ps[k].li)
+	}
+	for k := 0; k < 200; k++ {
+		order = append(order, ps[k].li)
+		if k >= 90 && k < 125 {
+			ring = append(ring, 1001+25+k)
+		}
+	}
+	return
 }
 
 func universe() []int {
@@ -99,6 +140,14 @@ func factory(raw json.RawMessage) (seqx.System, error) {
 				{Name: "ids{107..130}(window-1)", Q: ptr(sl.IdQuery(seq(107, 130)...))}, {Name: "ids{105..130}(window+1)", Q: ptr(sl.IdQuery(seq(105, 130)...))},
 			}
 			s.In.VamanaBattery(&s.Obs, s.M, sl.VamanaQueryCfg{Prop: prop, Params: params, Queries: queries, Limits: []int{25}, SearchSizes: []int{25}, Weights: []*float32{nil}, Filters: wf, InsertOnly: s.InsertOnly()})
+			// a query search size above the index's own, a filter between the two sizes whose nearest
+			// members lie outside the unfiltered window, in a collection larger than the window
+			if _, has := s.M.Docs[1001]; has {
+				_, ring := bigOrder()
+				ids := append(seq(1001, 1025), ring...)
+				bf := []sl.NamedFilter{{Name: "25 far (lowest node ids) + 35 ring points", Q: ptr(sl.IdQuery(ids...))}}
+				s.In.VamanaBattery(&s.Obs, s.M, sl.VamanaQueryCfg{Prop: prop, Params: params, Queries: queries[:1], Limits: []int{10, 60}, SearchSizes: []int{75}, Weights: []*float32{nil}, Filters: bf, InsertOnly: s.InsertOnly()})
+			}
 			s.In.GraphCheck(&s.Obs, s.M, prop, params)
 		}}, nil
 }
@@ -109,7 +158,7 @@ type quant struct {
 }
 
 func master(cfg *harness.Config, rep *harness.Report) {
-	rep.Rule = "all write histories up to the depth (insert 1-3 vectors incl. duplicates and vectorless points, move, remove/add the field, the same point twice in one update batch, delete, re-insert with node-id reuse), from the empty shard and from 30 lattice points, x metric {euclidean, dot, cosine, haversine, hamming} x quantiser {none, binary fixed, binary learned(trigger 3), product (2x2, trigger 3)}; after every batch 4 queries x limit {1,3,75} x searchSize {25,75} x weight {nil,0.5,-1,0} x pre-filter {none, empty, one point, all, mixed live/vectorless/absent ids, string filter}, plus limit = searchSize = 25 with filters of 24 / 25 / 26 members over the 30-point start state: only live in-filter points with the field, no duplicate, never the entry node, <= limit, sorted, distance = index distance, hybrid = -weight*distance; exact k-NN for insert-only histories with <= min(degreeBound, searchSize-1) vectors and for filters with <= searchSize members. Histories are not merged (the warm graph cache is state outside the buckets)"
+	rep.Rule = "all write histories up to the depth (insert 1-3 vectors incl. duplicates and vectorless points, move, remove/add the field, the same point twice in one update batch, delete, re-insert with node-id reuse), from the empty shard and from 30 lattice points, x metric {euclidean, dot, cosine, haversine, hamming} x quantiser {none, binary fixed, binary learned(trigger 3), product (2x2, trigger 3)}; after every batch 4 queries x limit {1,3,75} x searchSize {25,75} x weight {nil,0.5,-1,0} x pre-filter {none, empty, one point, all, mixed live/vectorless/absent ids, string filter}, plus limit = searchSize = 25 with filters of 24 / 25 / 26 members over the 30-point start state, plus an index built with searchSize 25 / degreeBound 32 holding 225 points and queried with searchSize 75 and a 60-member filter whose nearest members lie outside the unfiltered window: only live in-filter points with the field, no duplicate, never the entry node, <= limit, sorted, distance = index distance, hybrid = -weight*distance; exact k-NN for insert-only histories with <= min(degreeBound, searchSize-1) vectors and for filters with <= searchSize members. Histories are not merged (the warm graph cache is state outside the buckets)"
 	rep.Assumptions = []string{"the entry vector is random (math/rand/v2): oracles are independent of graph shape", "product quantiser with trigger threshold 3 (HTTP minimum 1000), 2 sub-vectors x 2 centroids; centroids and centroid ids read back from the bucket and checked for consistency", "runtime.NumCPU()-1 = 1 insert worker (CPU affinity 2)"}
 	p := pool.New(pool.Options{CPUsPerWorker: 2, JobTimeout: 60 * time.Second})
 	if cfg.Replay != "" {
@@ -157,6 +206,23 @@ func master(cfg *harness.Config, rep *harness.Report) {
 			if inst.name == "warm" {
 				specs = append(specs, seqx.Spec{Name: fmt.Sprintf("%s/%s/%s/from30", c.metric, c.q.name, inst.name), Cfg: cc, Alphabet: syms.Refs(alpha...), Depth: inst.d - 1, Starts: [][]any{syms.Refs("ins30")}})
 			}
+		}
+	}
+	// an index built with the smallest search size and degree bound, 225 points, queried with the largest search size
+	{
+		schema := models.IndexSchema{
+			prop:  {Type: models.IndexTypeVectorVamana, VectorVamana: &models.IndexVectorVamanaParameters{VectorSize: sl.DimOf(models.DistanceEuclidean), DistanceMetric: models.DistanceEuclidean, SearchSize: 25, DegreeBound: 32, Alpha: 1.2}},
+			"cat": {Type: models.IndexTypeString, String: &models.IndexStringParameters{CaseSensitive: true}},
+		}
+		syms := symbols(models.DistanceEuclidean)
+		for _, inst := range []struct {
+			name string
+			cfg  sl.InstCfg
+		}{
+			{"warm", sl.InstCfg{Backend: "bbolt", CacheSize: -1, Schema: schema, Proxy: true}},
+			{"cold", sl.InstCfg{Backend: "bbolt", CacheSize: -1, ReopenEachOp: true, Schema: schema, Proxy: true}},
+		} {
+			specs = append(specs, seqx.Spec{Name: "euclidean/none/index-searchSize-25/" + inst.name + "/from225", Cfg: cfgT{Inst: inst.cfg, Metric: models.DistanceEuclidean}, Alphabet: syms.Refs("ins1", "del2,3", "upd1(move)"), Depth: 1, Starts: [][]any{syms.Refs("ins225(far points first)")}})
 		}
 	}
 	seqx.Explore(cfg, rep, p, specs)
